@@ -238,6 +238,14 @@ func checkC05(c *Ctx) error {
 			if run, ok = cli.DoAfter(w, "", nil, dir, out, args...); ok {
 				c.Add("runs_over_an_earlier_generated_output", 1)
 			}
+		} else if i%8 == 3 {
+			// the configuration arrives through a named pipe (next to an empty one in a regular file)
+			var seen bool
+			if run, seen = cli.DoPiped(w, "", nil, dir, out, "in.yaml", yaml, args...); seen {
+				c.Add("runs_with_the_configuration_read_from_a_pipe", 1)
+			} else {
+				c.Add("runs_with_a_pipe_the_tool_did_not_read_completely", 1)
+			}
 		} else {
 			run = cli.Do(w, "", nil, dir, out, args...)
 		}
